@@ -9,7 +9,9 @@ use saphyr_parser::{Event, Input, Parser, ScalarStyle, ScanError, Tag};
 pub fn parse_many(s: &str) -> impl Iterator<Item = Result<Val, Error>> + '_ {
     let mut st = State::new(Parser::new_from_str(s));
     assert!(matches!(st.next(), Ok((Event::StreamStart, _))));
-    core::iter::from_fn(move || st.parse_stream_entry())
+    // the parser must not be polled again once it has reported the end of the stream
+    // (`input`/`inputs` and the main loop share this iterator and both may reach the end)
+    core::iter::from_fn(move || st.parse_stream_entry()).fuse()
 }
 
 /// Error span.
